@@ -25,6 +25,7 @@ import (
 	"sync/atomic"
 	"time"
 
+	"github.com/ajitpratap0/GoSQLX/pkg/config"
 	gerrors "github.com/ajitpratap0/GoSQLX/pkg/errors"
 	"github.com/ajitpratap0/GoSQLX/pkg/gosqlx"
 	"github.com/ajitpratap0/GoSQLX/pkg/linter"
@@ -294,7 +295,25 @@ func concRounds(req concReq) int {
 // ---------------------------------------------------------------------------------------------
 // mix
 
-var mixOps = []string{"tokenize", "parse", "format", "extract", "scan", "lint", "suggest", "span", "metrics"}
+var mixOps = []string{"tokenize", "parse", "format", "extract", "scan", "lint", "suggest", "span", "metrics", "config"}
+
+// config files for the "config" operation (written once per process, removed at the end of the mix)
+var cfgFiles []string
+
+func makeCfgFiles() {
+	for i := 0; i < 3; i++ {
+		p := fmt.Sprintf("%s/vh_c10_%d_%d.json", os.TempDir(), os.Getpid(), i)
+		if os.WriteFile(p, []byte("{}"), 0o600) == nil {
+			cfgFiles = append(cfgFiles, p)
+		}
+	}
+}
+
+func removeCfgFiles() {
+	for _, p := range cfgFiles {
+		os.Remove(p)
+	}
+}
 
 var theLinter = linter.New(
 	keywords.NewKeywordCaseRule(keywords.CaseUpper),
@@ -370,15 +389,39 @@ func runOp(op string, sql string, gid int) (res string) {
 		sort.Strings(parts)
 		return strings.Join(parts, ",")
 	case "suggest":
-		// first identifier-like word of the input, mangled: exercises the shared suggestion cache
-		w := "SELCT"
-		for _, f := range strings.Fields(sql) {
-			if len(f) >= 3 {
-				w = f[:len(f)-1]
+		// words of the input, mangled: exercises the shared suggestion cache (hits, misses, size, statistics)
+		var parts []string
+		for i, f := range strings.Fields(sql) {
+			if i >= 6 {
 				break
 			}
+			if len(f) >= 3 {
+				parts = append(parts, gerrors.SuggestKeyword(f[:len(f)-1]))
+			}
 		}
-		return gerrors.SuggestKeyword(w)
+		parts = append(parts, gerrors.SuggestKeyword("SELCT"))
+		if gerrors.SuggestionCacheSize() < 0 || gerrors.GetSuggestionCacheStats().MaxSize <= 0 {
+			return "bad cache size"
+		}
+		return strings.Join(parts, ",")
+	case "config":
+		if len(cfgFiles) == 0 {
+			return "no config file"
+		}
+		p := cfgFiles[len(sql)%len(cfgFiles)]
+		cfg, err := config.LoadFromFileCached(p)
+		if err != nil {
+			return "ERR " + err.Error()
+		}
+		if len(sql)%5 == 0 {
+			config.InvalidateConfigCache(p)
+		}
+		if config.ConfigCacheSize() < 0 {
+			return "bad cache size"
+		}
+		cfg.Source = ""
+		b, _ := json.Marshal(cfg)
+		return hashOf(string(b))
 	case "span":
 		node := &ast.SelectStatement{}
 		sp := models.Span{Start: models.Location{Line: gid + 1, Column: len(sql)}, End: models.Location{Line: gid + 2, Column: 1}}
@@ -413,6 +456,8 @@ func concMix(req concReq) int {
 	}
 	n, k := req.N, req.OpsPerG
 	inputs := req.Inputs
+	makeCfgFiles()
+	defer removeCfgFiles()
 	// sequential table (twice: an operation that is not deterministic alone is excluded and reported)
 	type delta struct{ ops, errs, bytes, mn, mx int64 }
 	table := map[string][]string{}
@@ -438,6 +483,8 @@ func concMix(req concReq) int {
 		}
 	}
 	resetAll()
+	gerrors.ClearSuggestionCache() // the concurrent phase starts with cold caches, like the sequential one did
+	config.ClearConfigCache()
 	var mu sync.Mutex
 	var mism []mixMismatch
 	nmis := 0
